@@ -396,7 +396,7 @@ ParCSRMatrix* extended_interpolation(ParCSRMatrix* A,
                         col <= A->partition->last_local_col)
                 {
                     // Only add to A (for +i)
-                    col = on_proc_partition_to_col[col - A->partition->first_local_row];
+                    col = on_proc_partition_to_col[col - A->partition->first_local_col];
                     A_recv_on_idx[A_recv_on_ctr++] = j;
                 }
             }
@@ -412,7 +412,7 @@ ParCSRMatrix* extended_interpolation(ParCSRMatrix* A,
             }
             else
             {
-                col = on_proc_partition_to_col[col - A->partition->first_local_row];
+                col = on_proc_partition_to_col[col - A->partition->first_local_col];
                 if (tmp_col < 0) // Only add to S if neg
                 {
                     S_recv_on_idx[S_recv_on_ctr++] = j;
@@ -1137,7 +1137,7 @@ ParCSRMatrix* mod_classical_interpolation(ParCSRMatrix* A,
     for (std::vector<int>::iterator it = recv_on->idx2.begin();
             it != recv_on->idx2.end(); ++it)
     {
-        *it = on_proc_partition_to_col[*it - A->partition->first_local_row];
+        *it = on_proc_partition_to_col[*it - A->partition->first_local_col];
     }
     delete[] on_proc_partition_to_col;
 
